@@ -202,6 +202,7 @@ def static_items(ex, it):
     if isinstance(it, PTuple): return list(it.items)
     if isinstance(it, PConst) and isinstance(it.obj, (tuple, list, range)): return [ex.lift_const(x) for x in it.obj]
     if isinstance(it, PConst) and isinstance(it.obj, StaticIter): return it.obj.items
+    if isinstance(it, PTuple): return list(it.items)
     return None
 
 
@@ -231,7 +232,7 @@ def unrolled(ex, s, st, items):
     return res
 
 
-def for_seq(ex, s, st, it):
+def for_seq(ex, s, st, it, item_of=None, index_values=None):
     """for x in <tuple of symbolic length>: index loop cut by the invariant"""
     key = loop_key(ex, s); inv = _inv(ex, key)
     arr, n = seq_of(it, st)
@@ -241,25 +242,34 @@ def for_seq(ex, s, st, it):
     elem0 = it.elem if isinstance(it, PSeq) else 'val'
     def bind(h0):
         i0 = fresh('i', IntSort()); h0.assume(0 <= i0, i0 < n)
-        item0 = ZV('ref', Val.ref(arr[i0]), elem0[4:]) if elem0.startswith('ref:') else ZV('val', arr[i0])
+        item0 = item_of(i0) if item_of else ZV('ref', Val.ref(arr[i0]), elem0[4:]) if elem0.startswith('ref:') else ZV('val', arr[i0])
         return [s2 for s2, f2 in ex.assign(h0, s.target, item0)]
     h = havoc_loop(ex, st, s.body, extra_names=_target_names(s.target), bind=bind)
-    i = fresh('i', IntSort())
-    h.assume(0 <= i, i <= n)
-    _assume_inv(h, LoopCtx(key, st, h, pre, i=i, n=n, arr=arr), inv)
     res = []
-    # one arbitrary iteration
-    b = h.copy(); b.assume(i < n); b.label(f'loop[{key}].body')
-    if ex.feasible(b):
-        item = ZV('ref', Val.ref(arr[i]), elem[4:]) if elem.startswith('ref:') else ZV('val', arr[i])
-        for s2, f2 in ex.assign(b, s.target, item):
-            for s3, f3 in ex.run_block(s.body, s2):
-                if f3 is NEXT or f3[0] == 'continue':
-                    _oblige_inv(ex, key, 'preserve', s3, LoopCtx(key, st, s3, pre, i=i + 1, n=n, arr=arr), inv)
-                elif f3[0] == 'break': res.append((s3, NEXT))
-                else: res.append((s3, f3))
+    # one arbitrary iteration -- or, for a sequence of known length, one inductive step per concrete index
+    # (complete as well, and it keeps index-dependent arithmetic linear)
+    indices = index_values if index_values is not None else [None]
+    for k in indices:
+        hk = h.copy()
+        if k is None:
+            i = fresh('i', IntSort()); hk.assume(0 <= i, i <= n)
+        else:
+            i = IntVal(k)
+        _assume_inv(hk, LoopCtx(key, st, hk, pre, i=i, n=n, arr=arr), inv)
+        b = hk.copy(); b.assume(i < n); b.label(f'loop[{key}].body' + ('' if k is None else f'@{k}'))
+        if ex.feasible(b):
+            item = item_of(i) if item_of else ZV('ref', Val.ref(arr[i]), elem[4:]) if elem.startswith('ref:') else ZV('val', arr[i])
+            for s2, f2 in ex.assign(b, s.target, item):
+                for s3, f3 in ex.run_block(s.body, s2):
+                    if f3 is NEXT or f3[0] == 'continue':
+                        _oblige_inv(ex, key, 'preserve', s3, LoopCtx(key, st, s3, pre, i=i + 1, n=n, arr=arr), inv)
+                    elif f3[0] == 'break': res.append((s3, NEXT))
+                    else: res.append((s3, f3))
     # exit
-    x = h.copy(); x.assume(i == n); x.label(f'loop[{key}].exit')
+    x = h.copy()
+    i = fresh('i', IntSort()); x.assume(i == n)
+    _assume_inv(x, LoopCtx(key, st, x, pre, i=i, n=n, arr=arr), inv)
+    x.label(f'loop[{key}].exit')
     if ex.feasible(x):
         res.extend(ex.run_block(s.orelse, x) if s.orelse else [(x, NEXT)])
     return res
